@@ -999,6 +999,36 @@ theorem timeoutTick_total (since interval : Int) (hs : 0 ≤ since) (hi : inUsiz
   · rw [ckUsize_ok (by arith)]; simp [Res.map']
   · simp
 
+/-! ## next_register and host-started operations (findings F-C06-20 / F-C06-21, fixed by b752efa) -/
+
+/-- before b752efa: a unary operation started with 255 registers in use, a binary one with 254 -/
+theorem hostOp_unguarded_panic_witness : hostOp false 255 1 = .panic ∧ hostOp false 254 2 = .panic := by decide
+
+/-- **current code**: with the headroom guard no host-started operation that needs up to 7 operand
+registers can overflow the `u8` id, whatever the frame's fill level … -/
+theorem hostOp_total (next extra : Int) (hn : 0 ≤ next) (he : 0 ≤ extra ∧ extra ≤ 7) :
+    hostOp true next extra ≠ .panic := by
+  unfold hostOp nextRegister
+  simp only [ite_true]
+  split
+  · simp
+  · simp only [bind_ok]; rw [ckU8_ok (by arith)]; simp
+
+/-- … and it is refused (a runtime error) exactly when fewer than 8 ids are left -/
+theorem hostOp_err_iff (next extra : Int) (hn : 0 ≤ next) (he : 0 ≤ extra ∧ extra ≤ 7) :
+    hostOp true next extra = .err ↔ next + 8 > 255 := by
+  unfold hostOp nextRegister
+  simp only [ite_true]
+  constructor
+  · intro h
+    split at h
+    · assumption
+    · simp only [bind_ok] at h; rw [ckU8_ok (by arith)] at h; simp at h
+  · intro h; simp [h]
+
+example : hostOp true 247 2 = .ok 247 := by decide
+example : hostOp true 248 1 = .err := by decide
+
 /-! ## compiler Frame -/
 
 /-- 248 locals + 12 captures (finding F-C05-3 / F-C06-15) -/
